@@ -40,6 +40,9 @@ enum Shape {
     /// poll `send(a)` once and drop it if still pending (select!/timeout-style cancellation),
     /// then `send(b).await`
     CancelThenOne,
+    /// `send(a).await`, yield once, only then drop the sender handle (the receiver may have
+    /// parked in between and must be woken by the drop to observe the end of the stream)
+    OneYieldDrop,
 }
 
 #[derive(Clone, Copy, Debug, PartialEq, Eq, Hash)]
@@ -106,6 +109,21 @@ fn sender_task(id: usize, shape: Shape, tx: mpsc::Sender<u32>, log: Log) -> Task
                     rec(&log, r, b);
                 };
                 futures::future::join(fa, fb).await;
+            }
+            Shape::OneYieldDrop => {
+                let r = tx.send(a).await.map_err(|e| e.0);
+                rec(&log, r, a);
+                let mut yielded = false;
+                std::future::poll_fn(|cx| {
+                    if yielded {
+                        Poll::Ready(())
+                    } else {
+                        yielded = true;
+                        cx.waker().wake_by_ref();
+                        Poll::Pending
+                    }
+                })
+                .await;
             }
             Shape::CancelThenOne => {
                 let mut f = Box::pin(tx.send(a));
@@ -314,7 +332,7 @@ fn judge(cfg: &Config, o: &Outcome) -> Vec<(&'static str, String)> {
 }
 
 fn configs(thorough: bool) -> Vec<Config> {
-    let shapes_small = [Shape::One, Shape::Two, Shape::Joined, Shape::SinkTwo, Shape::CancelThenOne];
+    let shapes_small = [Shape::One, Shape::Two, Shape::Joined, Shape::SinkTwo, Shape::CancelThenOne, Shape::OneYieldDrop];
     let mut sender_sets: Vec<Vec<Shape>> = vec![];
     for a in shapes_small {
         sender_sets.push(vec![a]);
@@ -337,9 +355,9 @@ fn configs(thorough: bool) -> Vec<Config> {
         for s in &sender_sets {
             let modes: Vec<RecvMode> = if thorough {
                 vec![RecvMode::UntilNone, RecvMode::StreamUntilNone, RecvMode::CloseAfter(0), RecvMode::CloseAfter(1),
-                     RecvMode::CloseAfter(2), RecvMode::DropAfter(1), RecvMode::DropAfter(2)]
+                     RecvMode::CloseAfter(2), RecvMode::DropAfter(0), RecvMode::DropAfter(1), RecvMode::DropAfter(2)]
             } else {
-                vec![RecvMode::UntilNone, RecvMode::StreamUntilNone, RecvMode::CloseAfter(1), RecvMode::DropAfter(1)]
+                vec![RecvMode::UntilNone, RecvMode::StreamUntilNone, RecvMode::CloseAfter(0), RecvMode::CloseAfter(1), RecvMode::DropAfter(0), RecvMode::DropAfter(1)]
             };
             for m in modes {
                 out.push(Config { cap, senders: s.clone(), recv: m });
@@ -394,7 +412,7 @@ fn check_config(cfg: &Config, bound: Option<usize>, cap: u64) -> Stats {
 fn parse_cfg(v: &Value) -> Config {
     let cap = v["cap"].as_u64().map(|x| x as usize);
     let senders = v["senders"].as_array().unwrap().iter().map(|s| match s.as_str().unwrap() {
-        "One" => Shape::One, "Two" => Shape::Two, "Joined" => Shape::Joined, "SinkTwo" => Shape::SinkTwo, "CancelThenOne" => Shape::CancelThenOne, o => panic!("{o}"),
+        "One" => Shape::One, "Two" => Shape::Two, "Joined" => Shape::Joined, "SinkTwo" => Shape::SinkTwo, "CancelThenOne" => Shape::CancelThenOne, "OneYieldDrop" => Shape::OneYieldDrop, o => panic!("{o}"),
     }).collect();
     let r = v["recv"].as_str().unwrap();
     let num = |s: &str| s.trim_end_matches(')').split('(').nth(1).unwrap().parse::<usize>().unwrap();
